@@ -404,23 +404,25 @@ func c09(c *Ctx) {
 	res := make([]c09res, len(progs))
 	limit := 10 * time.Second
 	// watchdog budget: an expiry is retried once with a longer limit (a loaded machine is not a
-	// deadlock); after two confirmed deadlocks in one scenario its remaining programs are skipped
+	// deadlock); after three expiries in one scenario its remaining programs are skipped
 	// (each costs the full limit), and the skipped rows say so
 	deadIn := map[int]int{}
+	expiries := 0
 	var skip []string
 	for i := 0; i < len(progs); {
 		os.Setenv("C09_SKIP", strings.Join(skip, ","))
 		n := c09runChild(exe, c.Seed, c.Thorough, i, res, limit)
 		if n > 0 && n <= len(progs) && n-1 >= i && res[n-1].dead {
-			one := make([]c09res, len(progs))
-			c09runOne(exe, c.Seed, c.Thorough, n-1, one, 30*time.Second)
-			res[n-1] = one[n-1]
-			if res[n-1].dead {
-				sc := progs[n-1].scen
-				deadIn[sc]++
-				if deadIn[sc] == 2 {
-					skip = append(skip, strconv.Itoa(sc))
-				}
+			sc := progs[n-1].scen
+			deadIn[sc]++
+			expiries++
+			if deadIn[sc] <= 2 {
+				one := make([]c09res, len(progs))
+				c09runOne(exe, c.Seed, c.Thorough, n-1, one, 30*time.Second)
+				res[n-1] = one[n-1]
+			}
+			if deadIn[sc] == 3 {
+				skip = append(skip, strconv.Itoa(sc))
 			}
 		}
 		if n <= i {
@@ -512,6 +514,7 @@ func c09(c *Ctx) {
 	c.Info("programs", strconv.Itoa(len(progs)))
 	c.Info("race_reports", strconv.Itoa(races))
 	c.Info("deadlocks", strconv.Itoa(deads))
+	c.Info("watchdog_expiries", strconv.Itoa(expiries))
 	c.Info("programs_not_run_after_deadlocks", strconv.Itoa(nskipped))
 	c.Info("unexpected_panics", strconv.Itoa(panics))
 	c.Info("expected_panics_recovered", strconv.Itoa(expected))
